@@ -21,27 +21,35 @@ Definition verdict (wl : Z) (want a : bytes) (st : rstat) : cstat :=
       else if bytes_eqb (D a) want then CEof else CBadHash
   end.
 
-Definition cr_ok (r : cr) : Prop := cr_n r = lenZ (cr_acc r).
+(** the count is exact as long as fewer than 2^63 bytes have gone through *)
+Definition cr_ok (r : cr) : Prop := cr_n r = lenZ (cr_acc r) /\ (lenZ (cr_acc r) < two63Z)%Z.
+
+Lemma wrap64_small z : (0 <= z < two63Z)%Z -> wrap64 z = z.
+Proof. unfold wrap64, two63Z. intros Hz. rewrite Z.mod_small; lia. Qed.
+
+Lemma lenZ_nonneg a : (0 <= lenZ a)%Z.
+Proof. unfold lenZ. lia. Qed.
 
 Lemma lenZ_app a b : lenZ (a ++ b) = (lenZ a + lenZ b)%Z.
 Proof. unfold lenZ. rewrite app_length. lia. Qed.
 
 Lemma cr_read_spec r chunk st :
-  cr_ok r ->
+  cr_ok r -> (lenZ (cr_acc r ++ chunk) < two63Z)%Z ->
   exists r',
     cr_read D r (chunk, st)
     = ((chunk, verdict (cr_wantlen r) (cr_want r) (cr_acc r ++ chunk) st), r') /\
     cr_ok r' /\ cr_acc r' = cr_acc r ++ chunk /\
     cr_want r' = cr_want r /\ cr_wantlen r' = cr_wantlen r.
 Proof.
-  intros Hok. unfold cr_ok in *.
+  intros [Hn Hb] Hsmall.
   destruct chunk as [|b chunk].
   - exists r. rewrite app_nil_r. unfold cr_read, verdict.
-    rewrite Hok. destruct st; repeat split; auto.
+    rewrite Hn. destruct st; repeat split; auto.
     destruct ((0 <=? cr_wantlen r)%Z && negb (lenZ (cr_acc r) =? cr_wantlen r)%Z); [reflexivity|].
     destruct (bytes_eqb (D (cr_acc r)) (cr_want r)); reflexivity.
   - eexists (mkCr _ _ _ _). unfold cr_read, verdict. cbn [cr_n cr_acc cr_want cr_wantlen].
-    rewrite Hok, <- lenZ_app.
+    rewrite Hn, <- lenZ_app.
+    rewrite wrap64_small by (split; [apply lenZ_nonneg|exact Hsmall]).
     destruct st; repeat split; auto.
     destruct ((0 <=? cr_wantlen r)%Z && negb (lenZ (cr_acc r ++ b :: chunk) =? cr_wantlen r)%Z);
       [reflexivity|].
@@ -57,7 +65,7 @@ Fixpoint delivered (s : script) : bytes :=
   end.
 
 Theorem cr_trace_spec : forall s r i,
-  cr_ok r ->
+  cr_ok r -> (lenZ (cr_acc r ++ delivered s) < two63Z)%Z ->
   nth_error (cr_trace D r s) i =
   match nth_error s i with
   | Some (chunk, st) =>
@@ -66,13 +74,16 @@ Theorem cr_trace_spec : forall s r i,
   | None => None
   end.
 Proof.
-  induction s as [|[chunk st] rest IH]; intros r i Hok.
+  induction s as [|[chunk st] rest IH]; intros r i Hok Hsm.
   - destruct i; reflexivity.
-  - destruct (cr_read_spec r chunk st Hok) as (r' & E & Hok' & Ha & Hw & Hl).
-    cbn [cr_trace]. rewrite E.
+  - cbn [delivered] in Hsm. rewrite app_assoc in Hsm.
+    assert (Hsm1 : (lenZ (cr_acc r ++ chunk) < two63Z)%Z).
+    { rewrite lenZ_app in Hsm. pose proof (lenZ_nonneg (delivered rest)). lia. }
+    destruct (cr_read_spec r chunk st Hok Hsm1) as (r' & E & Hok' & Ha & Hw & Hl).
+    cbn [cr_trace]. unfold bytes in *. rewrite E.
     destruct i as [|i].
     + cbn [nth_error firstn delivered]. now rewrite app_nil_r.
-    + cbn [nth_error]. rewrite (IH r' i Hok'), Hw, Hl, Ha.
+    + cbn [nth_error]. rewrite (IH r' i Hok') by (now rewrite Ha). rewrite Hw, Hl, Ha.
       destruct (nth_error rest i) as [[c2 st2]|]; [|reflexivity].
       cbn [firstn delivered]. now rewrite app_assoc.
 Qed.
@@ -86,18 +97,25 @@ Qed.
 (** *** The consumer's view *)
 
 Theorem cr_consume_spec : forall s r,
-  cr_ok r ->
+  cr_ok r -> (lenZ (cr_acc r ++ fst (drain s)) < two63Z)%Z ->
   cr_consume D r s =
   (fst (drain s),
    verdict (cr_wantlen r) (cr_want r) (cr_acc r ++ fst (drain s)) (snd (drain s))).
 Proof.
-  induction s as [|[chunk st] rest IH]; intros r Hok.
-  - destruct (cr_read_spec r [] REof Hok) as (r' & E & _).
+  induction s as [|[chunk st] rest IH]; intros r Hok Hsm.
+  - destruct (cr_read_spec r [] REof Hok Hsm) as (r' & E & _).
     cbn [cr_consume drain fst snd]. unfold bytes in *. rewrite E. reflexivity.
-  - destruct (cr_read_spec r chunk st Hok) as (r' & E & Hok' & Ha & Hw & Hl).
-    cbn [cr_consume]. rewrite E.
+  - assert (Hsm1 : (lenZ (cr_acc r ++ chunk) < two63Z)%Z).
+    { destruct st.
+      - rewrite drain_cons_nil in Hsm. cbn [fst] in Hsm. rewrite app_assoc, lenZ_app in Hsm.
+        pose proof (lenZ_nonneg (fst (drain rest))). lia.
+      - cbn [drain fst] in Hsm. exact Hsm.
+      - cbn [drain fst] in Hsm. exact Hsm. }
+    destruct (cr_read_spec r chunk st Hok Hsm1) as (r' & E & Hok' & Ha & Hw & Hl).
+    cbn [cr_consume]. unfold bytes in *. rewrite E.
     destruct st.
-    + cbn [verdict]. rewrite (IH r' Hok'), Hw, Hl, Ha.
+    + cbn [verdict]. rewrite drain_cons_nil in Hsm. cbn [fst] in Hsm.
+      rewrite (IH r' Hok') by (now rewrite Ha, <- app_assoc). rewrite Hw, Hl, Ha.
       rewrite drain_cons_nil. cbn [fst snd]. now rewrite app_assoc.
     + cbn [drain fst snd verdict].
       destruct (_ && _); [reflexivity|]. destruct (bytes_eqb _ _); reflexivity.
@@ -105,19 +123,23 @@ Proof.
 Qed.
 
 Lemma new_cr_ok want n : cr_ok (new_cr want n).
-Proof. reflexivity. Qed.
+Proof. split; reflexivity. Qed.
 
 Definition declared (n : Z) : Z := if (n <? 0)%Z then (-1)%Z else n.
+
+(** streams of fewer than 2^63 bytes (every stream there will ever be) *)
+Definition small (b : bytes) : Prop := (lenZ b < two63Z)%Z.
 
 (** End of stream is reported exactly when the underlying reader ended
     cleanly, the bytes passed on have the expected digest, and their number
     is the declared one (if one was declared). *)
 Theorem check_reader_eof_iff : forall want n s,
-  snd (cr_consume D (new_cr want n) s) = CEof <->
-  snd (drain s) = REof /\ D (fst (drain s)) = want /\
-  ((n < 0)%Z \/ lenZ (fst (drain s)) = n).
+  small (fst (drain s)) ->
+  (snd (cr_consume D (new_cr want n) s) = CEof <->
+   snd (drain s) = REof /\ D (fst (drain s)) = want /\
+   ((n < 0)%Z \/ lenZ (fst (drain s)) = n)).
 Proof.
-  intros want n s. rewrite (cr_consume_spec s _ (new_cr_ok want n)).
+  intros want n s Hsm. rewrite (cr_consume_spec s _ (new_cr_ok want n) Hsm).
   cbn [snd new_cr cr_wantlen cr_want cr_acc app].
   pose proof (drain_not_nil s) as Hnn.
   destruct (snd (drain s)) as [| |e] eqn:Est; cbn [verdict].
@@ -142,23 +164,26 @@ Qed.
 (** Whatever is reported, the bytes handed to the consumer are exactly the
     bytes the underlying reader produced. *)
 Theorem check_reader_transparent : forall want n s,
+  small (fst (drain s)) ->
   fst (cr_consume D (new_cr want n) s) = fst (drain s).
-Proof. intros. now rewrite (cr_consume_spec s _ (new_cr_ok want n)). Qed.
+Proof. intros want n s Hsm. now rewrite (cr_consume_spec s _ (new_cr_ok want n) Hsm). Qed.
 
 (** The result is never "no error": the stream ends in EOF or in an error. *)
 Theorem check_reader_terminal : forall want n s,
+  small (fst (drain s)) ->
   snd (cr_consume D (new_cr want n) s) <> CNil.
 Proof.
-  intros. rewrite (cr_consume_spec s _ (new_cr_ok want n)). cbn [snd].
+  intros want n s Hsm. rewrite (cr_consume_spec s _ (new_cr_ok want n) Hsm). cbn [snd].
   pose proof (drain_not_nil s). destruct (snd (drain s)); cbn [verdict]; try congruence.
   destruct (_ && _); [discriminate|]. destruct (bytes_eqb _ _); discriminate.
 Qed.
 
 (** An underlying error is passed through unchanged (never turned into EOF). *)
 Theorem check_reader_passes_errors : forall want n s e,
+  small (fst (drain s)) ->
   snd (drain s) = RFail e -> snd (cr_consume D (new_cr want n) s) = CFail e.
 Proof.
-  intros want n s e H. rewrite (cr_consume_spec s _ (new_cr_ok want n)). cbn [snd].
+  intros want n s e Hsm H. rewrite (cr_consume_spec s _ (new_cr_ok want n) Hsm). cbn [snd].
   now rewrite H.
 Qed.
 
@@ -170,11 +195,12 @@ Qed.
 (** With a declared length: any stream of another length is an error — no
     assumption on the hash at all (all truncations and all extensions). *)
 Theorem check_reader_wrong_length_is_error : forall x s,
+  small (fst (drain s)) ->
   snd (drain s) = REof ->
   length (fst (drain s)) <> length x ->
   snd (cr_consume D (new_cr (D x) (lenZ x)) s) = CBadLen.
 Proof.
-  intros x s He Hl. rewrite (cr_consume_spec s _ (new_cr_ok _ _)).
+  intros x s Hsm He Hl. rewrite (cr_consume_spec s _ (new_cr_ok _ _) Hsm).
   cbn [snd new_cr cr_wantlen cr_want cr_acc app]. rewrite He. cbn [verdict].
   replace (lenZ x <? 0)%Z with false by (unfold lenZ; lia).
   replace ((0 <=? lenZ x)%Z) with true by (unfold lenZ; lia).
@@ -186,30 +212,57 @@ Qed.
     collides with [x] under the hash.  (The only way past the check is a
     SHA-256 collision, which the theorem names.) *)
 Theorem check_reader_wrong_bytes_is_error : forall x n s,
+  small (fst (drain s)) ->
   (n < 0)%Z \/ n = lenZ x ->
   fst (drain s) <> x ->
   snd (cr_consume D (new_cr (D x) n) s) = CEof ->
   D (fst (drain s)) = D x /\ fst (drain s) <> x.
 Proof.
-  intros x n s _ Hne H. apply check_reader_eof_iff in H. tauto.
+  intros x n s Hsm _ Hne H. apply check_reader_eof_iff in H; tauto.
 Qed.
 
 Theorem check_reader_accepts_genuine : forall x n s,
+  small x ->
   (n < 0)%Z \/ n = lenZ x ->
   drain s = (x, REof) ->
   cr_consume D (new_cr (D x) n) s = (x, CEof).
 Proof.
-  intros x n s Hn Hd.
-  pose proof (check_reader_transparent (D x) n s) as Ht.
-  pose proof (proj2 (check_reader_eof_iff (D x) n s)) as He.
+  intros x n s Hsm Hn Hd.
+  assert (Hsm' : small (fst (drain s))) by (now rewrite Hd).
+  pose proof (check_reader_transparent (D x) n s Hsm') as Ht.
+  pose proof (proj2 (check_reader_eof_iff (D x) n s Hsm')) as He.
   rewrite Hd in *. cbn [fst snd] in *.
   destruct (cr_consume D (new_cr (D x) n) s) as [c st]. cbn [fst snd] in *.
   subst c. f_equal. apply He. repeat split; auto.
   destruct Hn; [left; assumption|right; congruence].
 Qed.
 
-(** Calling [Read] again after the verdict gives the same verdict as long as
-    the underlying reader keeps returning [(0, io.EOF)]. *)
+(** A caller that stops early has been told nothing: a call reports
+    end-of-stream only if the underlying reader reported it on that very
+    call and everything handed out up to and including it checks out. *)
+Theorem check_reader_eof_at_call : forall want n s i c,
+  small (delivered s) ->
+  nth_error (cr_trace D (new_cr want n) s) i = Some (c, CEof) ->
+  nth_error s i = Some (c, REof) /\
+  D (delivered (firstn (S i) s)) = want /\
+  ((n < 0)%Z \/ lenZ (delivered (firstn (S i) s)) = n).
+Proof.
+  intros want n s i c Hsm H.
+  rewrite (cr_trace_spec _ _ _ (new_cr_ok want n)) in H by exact Hsm.
+  destruct (nth_error s i) as [[chunk st]|]; [|discriminate].
+  set (a := delivered (firstn (S i) s)) in *.
+  cbn [new_cr cr_wantlen cr_want cr_acc app] in H. injection H as <- Hv.
+  destruct st; cbn [verdict] in Hv; try discriminate Hv.
+  split; [reflexivity|].
+  destruct ((0 <=? (if (n <? 0)%Z then (-1)%Z else n))%Z &&
+            negb (lenZ a =? (if (n <? 0)%Z then (-1)%Z else n))%Z) eqn:El; [discriminate Hv|].
+  destruct (bytes_eqb (D a) want) eqn:Eb; [|discriminate Hv].
+  apply bytes_eqb_eq in Eb. split; [exact Eb|].
+  destruct (Z.ltb_spec n 0); [now left|right].
+  apply andb_false_iff in El. destruct El as [El|El]; [lia|].
+  apply negb_false_iff in El. now apply Z.eqb_eq in El.
+Qed.
+
 Lemma delivered_app a b : delivered (a ++ b) = delivered a ++ delivered b.
 Proof.
   induction a as [|[c0 s0] a IH]; cbn [app delivered]; [reflexivity|].
@@ -219,20 +272,37 @@ Qed.
 Lemma delivered_firstn_eofs m : forall j, delivered (firstn j (repeat (@nil N, REof) m)) = [].
 Proof. induction m as [|m IH]; intros [|j]; cbn; auto. Qed.
 
+Lemma delivered_eofs m : delivered (repeat (@nil N, REof) m) = [].
+Proof. induction m as [|m IH]; cbn; auto. Qed.
+
 Theorem check_reader_sticky : forall want n s k i c st,
+  small (delivered s) ->
   nth_error (cr_trace D (new_cr want n) (s ++ repeat ([], REof) k)) (length s + i) = Some (c, st) ->
   (i < k)%nat ->
   c = [] /\
   st = verdict (declared n) want (delivered s) REof.
 Proof.
-  intros want n s k i c st H Hi.
-  rewrite (cr_trace_spec _ _ _ (new_cr_ok want n)) in H.
+  intros want n s k i c st Hsm H Hi.
+  rewrite (cr_trace_spec _ _ _ (new_cr_ok want n)) in H
+    by (cbn [new_cr cr_acc app]; now rewrite delivered_app, delivered_eofs, app_nil_r).
   rewrite nth_error_app2 in H by lia.
   replace (length s + i - length s)%nat with i in H by lia.
   rewrite nth_error_repeat in H by assumption.
   replace (S (length s + i)) with (length s + S i)%nat in H by lia.
   rewrite firstn_app_2, delivered_app, delivered_firstn_eofs, app_nil_r in H.
   injection H as <- <-. split; reflexivity.
+Qed.
+
+(** *** The byte count is an int64: where the wrap is *)
+Example wrap64_at_the_edge :
+  wrap64 (two63Z - 1) = (two63Z - 1)%Z /\ wrap64 two63Z = (- two63Z)%Z /\
+  forall k, (0 <= k < two63Z)%Z -> wrap64 (k + 2 * two63Z) = k.
+Proof.
+  split; [reflexivity|split; [reflexivity|]].
+  intros k Hk. unfold wrap64, two63Z in *.
+  replace (k + 2 * 9223372036854775808 + 9223372036854775808)%Z
+    with (k + 9223372036854775808 + 1 * (2 * 9223372036854775808))%Z by lia.
+  rewrite Z.mod_add by lia. rewrite Z.mod_small; lia.
 Qed.
 
 (** *** NewCheckReader *)
@@ -256,7 +326,7 @@ Proof.
   destruct (strip_prefix sha256_prefix h); [|discriminate].
   destruct (hex_decode l) as [w|]; [|discriminate].
   destruct (N.eqb_spec (lenN w) 32) as [E|E]; [|discriminate].
-  intros [= <-]. split; [unfold lenN in E; cbn; lia|reflexivity].
+  intros [= <-]. split; [unfold lenN in E; cbn; lia|apply new_cr_ok].
 Qed.
 
 End Proofs.
